@@ -612,8 +612,9 @@ def run(ctx):
         wps = params_of(W)
         writes = [c for c in walk(body_of(W)) if c.get('kind') in ('CallExpr', 'CXXOperatorCallExpr') and (ref_decl(c['inner'][0] if c.get('kind') == 'CallExpr' else c['inner'][1]) or {}).get('id') == wps[3]['id']]
 
-        def root_decl(e):
+        def root_decl(e, fb=None):
             """the parameter / local an argument expression designates, through casts, & and single-assignment locals"""
+            fb = fb if fb is not None else body_of(W)
             e = strip(e)
             for _ in range(6):
                 while e is not None and e.get('kind') in ('ImplicitCastExpr', 'CStyleCastExpr', 'CXXStaticCastExpr', 'CXXReinterpretCastExpr', 'ParenExpr', 'CXXConstCastExpr', 'MaterializeTemporaryExpr') and kids(e):
@@ -626,8 +627,8 @@ def run(ctx):
                     continue
                 rd = ref_decl(e) if e is not None else None
                 if rd is not None and rd.get('kind') == 'VarDecl':
-                    vd = next((v for v in walk(body_of(W)) if v.get('kind') == 'VarDecl' and v.get('id') == rd['id'] and kids(v)), None)
-                    wr = [x for x in walk(body_of(W)) if x.get('kind') in ('BinaryOperator', 'CXXOperatorCallExpr') and (x.get('opcode') == '=' or call_name(x) == 'operator=') and (ref_decl(kids(x)[0] if x.get('kind') == 'BinaryOperator' else kids(x)[1]) or {}).get('id') == rd['id']]
+                    vd = next((v for v in walk(fb) if v.get('kind') == 'VarDecl' and v.get('id') == rd['id'] and kids(v)), None)
+                    wr = [x for x in walk(fb) if x.get('kind') in ('BinaryOperator', 'CXXOperatorCallExpr') and (x.get('opcode') == '=' or call_name(x) == 'operator=') and (ref_decl(kids(x)[0] if x.get('kind') == 'BinaryOperator' else kids(x)[1]) or {}).get('id') == rd['id']]
                     if vd is not None and not wr and '*' in (qtype(vd) or ''):
                         e = strip(kids(vd)[-1])
                         continue
@@ -647,12 +648,33 @@ def run(ctx):
         ctx.check(crcv is not None and ('be_uint32_t' in (qtype(crcv) or '') or 'big_endian<unsigned int>' in (dtype(crcv) or '')), R, 'chunk|crc-big-endian', crcv or W, 'crc stored big-endian', 'crc variable has type %s' % (qtype(crcv) if crcv else None))
         crcs = [c for c in walk_deep(body_of(W), u) if c.get('kind') == 'CallExpr' and call_name(c) == 'crc32']
         okc = len(crcs) == 2 and crcv is not None
+        crc_und = None
         if okc:
             a0, a1 = call_args(crcs[0]), call_args(crcs[1])
-            okc = int_value(a0[0]) == 0 and (root_decl(a0[1]) or {}).get('id') == wps[0]['id'] and int_value(a0[2]) == 4 and (root_decl(a1[0]) or {}).get('id') == crcv['id'] and \
-                (root_decl(a1[1]) or {}).get('id') == wps[1]['id'] and (root_decl(a1[2]) or {}).get('id') == wps[2]['id']
-            # the first value initialises the crc variable, the second is stored back into it
-            okc = okc and any(y is crcs[0] for y in walk(crcv)) and any(x.get('kind') in ('BinaryOperator', 'CXXOperatorCallExpr') and (ref_decl(kids(x)[0] if x.get('kind') == 'BinaryOperator' else kids(x)[1]) or {}).get('id') == crcv['id'] and any(y is crcs[1] for y in walk(x)) for x in walk(body_of(W)))
+            H = enclosing(crcs[0], FUNC_KINDS)
+            if H is not None and H.get('id') != W.get('id') and enclosing(crcs[1], FUNC_KINDS) is H:
+                # the CRC is computed by a helper: its parameters stand for the arguments of its call in write_png_chunk
+                hc = [c for c in walk(body_of(W)) if c.get('kind') == 'CallExpr' and (callee_decl(c, u) or {}).get('id') == H.get('id') or (c.get('kind') == 'CallExpr' and call_name(c) == H.get('name'))]
+                hb = body_of(H)
+                if len(hc) != 1 or len(call_args(hc[0])) != len(params_of(H)):
+                    crc_und = 'the CRC helper %s is not called exactly once with all its arguments' % H.get('name')
+                else:
+                    pmap = {p_['id']: (root_decl(a_) or {}).get('id') for p_, a_ in zip(params_of(H), call_args(hc[0]))}
+                    rid = lambda e_: pmap.get((root_decl(e_, hb) or {}).get('id'), (root_decl(e_, hb) or {}).get('id'))
+                    hv = next((v for v in walk(hb) if v.get('kind') == 'VarDecl' and any(y is crcs[0] for y in walk(v))), None)
+                    rets_ = [r_ for r_ in walk(hb) if r_.get('kind') == 'ReturnStmt']
+                    okc = hv is not None and int_value(a0[0]) == 0 and rid(a0[1]) == wps[0]['id'] and int_value(a0[2]) == 4 and (root_decl(a1[0], hb) or {}).get('id') == hv['id'] and \
+                        rid(a1[1]) == wps[1]['id'] and rid(a1[2]) == wps[2]['id'] and \
+                        any(x.get('kind') in ('BinaryOperator', 'CXXOperatorCallExpr') and (ref_decl(kids(x)[0] if x.get('kind') == 'BinaryOperator' else kids(x)[1]) or {}).get('id') == hv['id'] and any(y is crcs[1] for y in walk(x)) for x in walk(hb)) and \
+                        bool(rets_) and all((root_decl(kids(r_)[0], hb) or {}).get('id') == hv['id'] for r_ in rets_ if kids(r_)) and any(y is hc[0] for y in walk(crcv))
+            else:
+                okc = int_value(a0[0]) == 0 and (root_decl(a0[1]) or {}).get('id') == wps[0]['id'] and int_value(a0[2]) == 4 and (root_decl(a1[0]) or {}).get('id') == crcv['id'] and \
+                    (root_decl(a1[1]) or {}).get('id') == wps[1]['id'] and (root_decl(a1[2]) or {}).get('id') == wps[2]['id']
+                # the first value initialises the crc variable, the second is stored back into it
+                okc = okc and any(y is crcs[0] for y in walk(crcv)) and any(x.get('kind') in ('BinaryOperator', 'CXXOperatorCallExpr') and (ref_decl(kids(x)[0] if x.get('kind') == 'BinaryOperator' else kids(x)[1]) or {}).get('id') == crcv['id'] and any(y is crcs[1] for y in walk(x)) for x in walk(body_of(W)))
+        if crc_und:
+            ctx.undecided(R, 'chunk|crc-chain', W, crc_und)
+            okc = True
         ctx.check(okc, R, 'chunk|crc-chain', W, 'crc32(0, type, 4) then crc32(crc, data, size)', 'CRC does not cover exactly the type followed by the data')
         # zlib: crc32(crc, Z_NULL, len) returns the *initial* value 0, not crc.  A chunk without payload
         # (IEND) is written with a null data pointer, so the payload update must be skipped for it
